@@ -1,5 +1,5 @@
 import ProcSim.Lemmas.SimCore
-import ProcSim.Lemmas.HazardsRoutesSnap
+import ProcSim.Lemmas.RoutesCore
 import ProcSim.Props.C19
 /-!
 # Register hazards: the access plan, the queue invariant and what it implies (C01, C02)
@@ -576,7 +576,12 @@ theorem regsAvail_none_iff (qs : Queues N) (unit : UnitM N) (i : Nat) (ins : Ins
 /-! ## 4. Granted accesses and the queue invariant -/
 
 /-- unit `u` holds the lock of kind `wr` (`false` = read lock, `true` = write lock) -/
-def lockOf (wr : Bool) (u : UnitM N) : Bool := if wr then u.wr else u.rd
+def lockOf : Bool → UnitM N → Bool
+  | true, u => u.wr
+  | false, u => u.rd
+
+@[simp] theorem lockOf_true (u : UnitM N) : lockOf true u = u.wr := rfl
+@[simp] theorem lockOf_false (u : UnitM N) : lockOf false u = u.rd := rfl
 
 /-- in record `row`, instruction `i` is unstalled (`U`) in a unit holding the lock of kind `wr`: it performs that
 access in this cycle -/
